@@ -85,19 +85,19 @@ var props = []*core.Property{
 		technique: "finite-domain tabulation with forking walk; failed-edge propagation rule on the scanner's CFGs; provenance of the entry's results",
 		expl:      "decides the decision logic around the scanner, not the scanner's grammar",
 		notCovered: []string{"completeness of the scanner for every RFC 8259 document and every cut point (grammar-level; not decided)"},
-		rules:      []*core.Rule{ruleTruncTable, ruleFailProp, ruleParseResults, ruleAccounting, ruleCap, ruleJSONNodes, ruleTokenGate, ruleSnapshot}}),
+		rules:      []*core.Rule{ruleTruncTable, ruleFailProp, ruleParseResults, ruleAccounting, ruleCap, ruleJSONNodes, ruleTokenGate, ruleSnapshot, rulePools}}),
 	mk(pd{id: "C09", level: "other",
 		levelText: "Necessary conditions of JSON soundness: failure propagation; whole-mode acceptance is parsed == len; per-byte tables of every structural byte test in the container loops (only ',' continues, only the matching closer closes, '\"' starts a key, ':' follows it, everything else fails), value dispatch table; first-token gate.",
 		technique: "finite-domain tabulation of byte dispatches (256 values each) with helper-call folding; failed-edge propagation",
 		expl:      "decides the structural byte discipline of the container scanners and the acceptance decision",
 		notCovered: []string{"soundness of the scalar scanners (strings, numbers, literals) for every non-JSON string"},
-		rules:      []*core.Rule{ruleFailProp, ruleTruncTable, ruleParseResults, ruleAccounting, ruleSeparators, ruleTokenGate}}),
+		rules:      []*core.Rule{ruleFailProp, ruleTruncTable, ruleParseResults, ruleAccounting, ruleSeparators, ruleTokenGate, rulePools}}),
 	mk(pd{id: "C10", level: "other",
 		levelText: "Path-stack push/pop balance on every success path and no underflow; query tables equal the RFC 7946 / HAR / glTF specification tables; query discipline: every key is matched against every query by full path equality, the member is judged right after its value and before any other exit, the verdict flag is only set under match and value equality and never cleared; detector/query/node agreement and sibling order.",
 		technique: "counting typestate over the scanner CFGs; constant folding of the query table; shape and dominance rules on the object scanner",
 		expl:      "decides the mechanisms that make the sub-type verdict depend only on top-level members",
 		notCovered: []string{"order/content independence as a behavioural fact for every document"},
-		rules:      []*core.Rule{ruleStackBalance, ruleQueryTables, ruleQueryDiscipline, ruleJSONNodes, ruleTokenGate, ruleParseResults}}),
+		rules:      []*core.Rule{ruleStackBalance, ruleQueryTables, ruleQueryDiscipline, ruleJSONNodes, ruleTokenGate, ruleParseResults, rulePools}}),
 	mk(pd{id: "C11", level: "other",
 		levelText: "BOM table and order; BOM first; every return of utf-8 is control dependent on utf8.Valid or the ASCII test; the ASCII class, tabulated over 256 bytes through the class table, is 7-bit and contains printable ASCII; the validated buffer is the input minus at most an incomplete final rune (FullRune-guarded); Latin fallback: C1 predicate table, flag monotone, verdict names.",
 		technique: "finite-domain tabulation through constant tables; control-dependence rules",
@@ -115,7 +115,7 @@ var props = []*core.Property{
 		technique: "finite-domain tabulation; path-sensitive error typestate; field-store inventory on the csv reader",
 		expl:      "decides the truncation and acceptance logic around encoding/csv and the JSON scanner",
 		notCovered: []string{"behaviour of encoding/csv at every cut position"},
-		rules:      []*core.Rule{ruleDropLastLine, ruleInspectedGuard, ruleLineThresholds, ruleTruncTable, ruleSnapshot}}),
+		rules:      []*core.Rule{ruleDropLastLine, ruleInspectedGuard, ruleLineThresholds, ruleTruncTable, ruleSnapshot, rulePools}}),
 	mk(pd{id: "C14", level: "other",
 		levelText: "Extend builds a fresh node from its parameters with parent = receiver and publishes [new] ++ old by one store under the write lock, old children read under the same lock; package-level Extend delegates to the root; lookup visits type, every alias and every child; the walk is first-match over whatever children holds; results are clones.",
 		technique: "shape rules on Extend's SSA; lockset regions; origin analysis",
